@@ -19,7 +19,7 @@ CHECKS = {
         level="model_checking",
         technique="TLA+ specs LocateCart.tla (label / per-boundary-point merge / select vs declarative lifted torus components from Lattice.tla) + Overlap.tla, model-checked by TLC over every binary image of small lattices; spec->code replay; code->spec trace validation (TraceLocate.tla, TraceOverlap.tla)",
         text="TLC enumerates every binary image (SUBSET Cells) of 1-D/2-D/3-D lattices for all listed periodicity masks and checks Correct (one cluster per torus component, volume = cell count, moment = moment of the lifted component modulo the period for non-winding components), Ordered, MaskIntact, Termination; the pre-repair merge design is kept as Variant=\"original\" and is refuted by TLC (F1). Every image is replayed through locate_droplets_in_mask on concrete anisotropic/offset CartesianGrids; candidates captured before overlap removal must match the clusters, and the overlap stage is judged by TLC (Separated/Dominated/Subsequence) on the exact rational projection of the candidates. Large random images (noise, blobs, rings, stripes; 1-D..3-D) are validated by TraceLocate.tla.",
-        note="Trusted: TLC; scipy.ndimage.label's raster numbering (affects order only); exact-rational projection; pde grid metric. Winding components: only volume/cells are judged (position unspecified by the property). Cylindrical clause: see evidence (LocateCyl) when built.",
+        note="Trusted: TLC; scipy.ndimage.label's raster numbering (affects order only); exact-rational projection; pde grid metric. Winding components: only volume/cells are judged (position unspecified by the property). Cylindrical clause: LocateSym.tla (every binary image of 3x3..4x4, 2x6, 3x6 lattices with and without periodic z): exactly one droplet per non-winding on-axis torus component (PeriodicCorrect), the padded analysis abandoned exactly for winding components (SpanSound); the pre-repair closed central filter is refuted by TLC in every run (F18).",
         ref="§3 C02",
     ),
     "C03": dict(
@@ -67,8 +67,8 @@ CHECKS = {
     "C09": dict(
         level="model_checking",
         technique="TLA+ spec Outcome.tla (a call has exactly two transitions: Return with finite droplets, Raise with the documented error) whose input space is enumerated by TLC; every enumerated input executed by the real code and the recorded outcome validated by TraceOutcome.tla (code->spec)",
-        text="TLC enumerates (quick) 6.1e4 locate requests = option table (modes, refine, interface width, threshold rule, minimal radius, refinement arguments) x EVERY binary image of a 1x6 row, 3x3, 2x2x2, cylindrical 3x3 with and without periodic z, polar 4 and spherical 4 grid, plus constant, ramp and three-level noise images; all 54 droplet-class x grid-family rendering requests; all 80 (thorough 682) time courses of <=3-4 frames over {empty, one, two, moved} x tracking method. Every input (quick: a seeded half of the locate space) is run through locate_droplets (affinely rescaled intensities, all periodicity masks), get_phase_field (four droplets per request, on and off cell centres, widths None/0/positive, random amplitudes) or from_emulsion_time_course (1-3 dimensions, periodic grid or none, cut-off or none); the outcome must be a finite return (all droplet parameters; NaN only as unset width) or exactly the documented ValueError (modes in 1-D, dimension mismatch). TraceOutcome.tla accepts the recorded outcome classes.",
-        note="Trusted: TLC. 'Valid input' is the enumerated space (tiny grids, exhaustive binary images; larger grids sharded in the thorough tier) and the premise that supplied intensity levels are consistent with the image. Found and repaired F2 (distance tracking on an empty frame), F3, F4, F5.",
+        text="TLC enumerates (quick) 7.8e4 locate requests = option table (modes, refine, interface width, threshold rule, minimal radius, refinement arguments incl. automatic and fitted levels) x EVERY binary image of a 3x3 grid with 10:1 anisotropic cells, a 1x6 row, 3x3, 2x2x2, cylindrical 3x3 with and without periodic z, polar 4 and spherical 4 grid, plus constant, ramp and three-level noise images; all 54 droplet-class x grid-family rendering requests; all 170 (thorough 1364) time courses of <=3-4 frames over {empty, one, two, shifted, moved} x tracking method (built through the constructor and through append). Every input (quick: a seeded half of the locate space) is run through locate_droplets (affinely rescaled intensities, all periodicity masks), get_phase_field (four droplets per request, on and off cell centres, widths None/0/positive, random amplitudes) or from_emulsion_time_course (1-3 dimensions, periodic grid or none, cut-off or none); the outcome must be a finite return (all droplet parameters; NaN only as unset width) or exactly the documented ValueError (modes in 1-D, dimension mismatch). TraceOutcome.tla accepts the recorded outcome classes.",
+        note="Trusted: TLC. 'Valid input' is the enumerated space (tiny grids, exhaustive binary images; larger grids sharded in the thorough tier) and the premise that supplied intensity levels are consistent with the image. Found and repaired F2 (distance tracking on an empty frame), F3, F4, F5, F13 (zero intensity range), F19 (empty fit region).",
         ref="§3 C09",
     ),
     "C10": dict(
@@ -108,7 +108,7 @@ CHECKS = {
     ),
     "C15": dict(
         level="model_checking",
-        technique="TLA+ spec Parallel.tla (executor.map as Take/Finish/Yield with W workers, None-filter) model-checked by TLC over all interleavings; every complete schedule forced in real ProcessPoolExecutors (spec->code) and the workers' start/end logs validated by TraceParallel.tla (code->spec)",
+        technique="TLA+ spec Parallel.tla (executor.map as Take/Finish/Yield with W workers, None-filter) model-checked by TLC over all interleavings; every complete schedule forced in real ProcessPoolExecutors (spec->code) and the workers' start/end logs validated by TraceParallel.tla (code->spec); thorough tier: inductive invariant of ParallelInd.tla discharged by Apalache for unbounded schedule length",
         text="TLC checks TypeOK, OrderPreserved, PrefixAlways, Deterministic, OnceEach, OutGrows and Termination for N<=6 tasks on W<=4 workers with sets of None results, over every interleaving. Each complete schedule (completion order) found by TLC is forced in a real process pool by gating task completion on marker files; locate_droplets(refine=True, num_processes=W|'auto') on fields with N droplets (plain, diffuse, perturbed candidates, periodic/non-periodic, a droplet cut by the boundary, forced None results) and EmulsionTimeCourse.from_storage(num_processes=W, progress=None|True|False, refine on/off) on N distinct frames must return results bit-identical (data bytes, dtype, class, order, times) to the serial run; serial runs are repeated and must be identical. The recorded start/end logs are accepted by TraceParallel.tla only if they are behaviours of the spec and the caller's output is the spec's.",
         note="Trusted: TLC, fork start method (wrappers inherited by workers), FIFO call queue of the executor. Runs whose recorded completion order is not the intended one are not judged (count in evidence). Exhaustive in schedules for the stated (N, W); inputs are a fixed family of scenarios.",
         ref="§3 C15",
@@ -143,8 +143,8 @@ CHECKS = {
     ),
     "C20": dict(
         level="model_checking",
-        technique="TLA+ spec Collections.tla (heap of droplet/Emulsion/EmulsionTimeCourse/DropletTrack objects with explicit identity; one action per public call) model-checked by TLC over all operation sequences up to the stated depth; every transition of the state graph replayed on real objects (spec->code) with full state, aliasing and query comparison",
-        text="TLC explores every sequence of <=3-5 public operations (append/extend with copy and force_consistency flags, constructors, copy(min_radius), slices, +, remove_small, remove_overlapping, get_linked_data + writes through the array, writes through caller references, merge of members in place and out of place, time-course append/slice/copy/index/clear, track append/slice/copy/index, explicit and default times) over small alphabets in four worlds (spherical, diffuse/mixed layout, time courses, tracks) and checks Aligned, Owned (default-path members reachable from exactly one place), ArrShared, OrderFree (queries invariant under all permutations) and HeapGrows in every state. Every transition printed by TLC (quick: 8.6e4, thorough: >1e6) is replayed: API calls along a path to the source state, then the operation; compared are exception type, lengths, layouts (dtype slot), times, every reachable droplet value (exact rationals), the aliasing partition of all handles found by writing through each handle, and count / mean / std of radii and volumes / total volume / area-weighted interface width / bounding box / durations / trajectories / nearest-time lookup against the spec's exact folds, also on the reversed emulsion.",
+        technique="TLA+ spec Collections.tla (heap of droplet/Emulsion/EmulsionTimeCourse/DropletTrack objects with explicit identity; one action per public call) model-checked by TLC over all operation sequences up to the stated depth; every transition of the state graph replayed on real objects (spec->code) with full state, aliasing and query comparison; long random operation sequences recorded from real objects and validated by TraceCollections.tla (code->spec)",
+        text="TLC explores every sequence of <=3-5 public operations (append/extend with copy and force_consistency flags, constructors, copy(min_radius), slices, +, remove_small, remove_overlapping, get_linked_data + writes through the array, writes through caller references, merge of members in place and out of place, time-course append/slice/copy/index/clear, track append/slice/copy/index, explicit and default times) over small alphabets in four worlds (spherical, diffuse/mixed layout, time courses, tracks) and checks Aligned, Owned (default-path members reachable from exactly one place), ArrShared, OrderFree (queries invariant under all permutations) and HeapGrows in every state. Every transition printed by TLC (quick: 8.6e4, thorough: >1e6) is replayed: API calls along a path to the source state, then the operation; compared are exception type, lengths, layouts (dtype slot), times, every reachable droplet value (exact rationals), the aliasing partition of all handles found by writing through each handle, and count / mean / std of radii and volumes / total volume / area-weighted interface width / bounding box / durations / trajectories / nearest-time lookup against the spec's exact folds, also on the reversed emulsion, and count/mean/std/total volume against their definitions over the real members for every emulsion (mixed dimensions included). Code->spec: 48 (thorough 640) seeded random sequences of 25 (40) calls over all 24 operations are executed on real objects; each call is logged with arguments, exception and the canonical observable state (values in slot order, first slot holding the same object, layouts, times) and TLC accepts a log only if every event is a step of the spec's action with that outcome (Aligned/Owned/ArrShared checked along the way); a deliberately corrupted log must be rejected.",
         note="Trusted: TLC; the projection in harness/c20.py. Bounded: exhaustive up to depth 3-5 over the stated alphabets; 1-D geometry with rational coordinates (2-D droplets occur only as wrong-layout members). Non-default paths (copy=False duplicates + get_linked_data) are modelled as the code behaves. Found and repaired F10 (merge after get_linked_data raised).",
         ref="§3 C20",
     ),
